@@ -229,7 +229,7 @@ def check(run):
             run.violation("broken-obligation", {"kind": "lean-build"}, run.broken_build["first_error"], run.broken_build, found_input=False)
             return
     pools = line_pool(rng, thorough)
-    n_prog = 2500 if thorough else 600
+    n_prog = 10000 if thorough else 600
     reqs, plan = [], []
     progs = []
     for pi in range(n_prog):
